@@ -170,7 +170,18 @@ func drawBot(tp *tape.Tape, idx int, threshold int, names map[string]bool) *botS
 			names[b.name] = true
 			break
 		}
-		switch tp.Choose(5) {
+		switch tp.Choose(6) {
+		case 5:
+			// up to 16 characters, each 2-3 bytes in UTF-8 (the name is then longer
+			// than 16 bytes)
+			pLongUTF8Name.Hit()
+			rs := []rune("éüЖ世界玩家あ")
+			n := 6 + tp.Choose(11)
+			var sb []rune
+			for i := 0; i < n; i++ {
+				sb = append(sb, rs[tp.Choose(len(rs))])
+			}
+			b.name = string(sb)
 		case 0:
 			b.name = ""
 		case 1:
@@ -1279,3 +1290,5 @@ var pClaimedUUID = simrt.NewProbe("bot.claims.a.profile.uuid.in.login-hello")
 var pHugePlay = simrt.NewProbe("play.packet.near.protocol.maximum.incompressible")
 
 var pResumed = simrt.NewProbe("bot.resumed.HandleGame.after.a.handler.error")
+
+var pLongUTF8Name = simrt.NewProbe("name.of.up.to.16.multi-byte.characters(>16.bytes)")
